@@ -73,19 +73,34 @@ class Impl:
         self.registry: Any = None               # set by Worker: the environment actions act on it
         self.pending: list[Any] = []            # environment threads still waiting for an entry lock
 
-    def _environment(self, fn: Any, done: Any) -> None:
+    def _environment(self, fn: Any, done: Any = None) -> None:
         """Something ends sessions WHILE the method runs, from another thread (reaper tick / DrainHandle.shutdown()).
-        The sweep pops its victims under the registry lock at once; the close hook of a session this request holds
-        waits for the entry lock, i.e. until process_response.  Wait only for the pop."""
+        The sweep pops ALL its victims under the registry lock first and only then runs their close hooks; the hook of a
+        session this request holds waits for the entry lock, i.e. until process_response.  The method goes on exactly when
+        the sweep's pop phase is over: the thread has finished, or it has reached `_close_entry` (pops done, hooks running
+        or blocked).  Waiting for less (e.g. "nothing left to evict") would let the sweep run after the method's next
+        call and evict a session that call opens."""
+        import sys
         import threading
         import time as _t
 
         th = threading.Thread(target=fn, daemon=True)
         th.start()
         self.pending.append(th)
+
+        def pop_phase_over() -> bool:
+            if not th.is_alive():
+                return True
+            f = sys._current_frames().get(th.ident)
+            while f is not None:
+                if f.f_code.co_name == "_close_entry":
+                    return True
+                f = f.f_back
+            return False
+
         t0 = _t.monotonic()
-        while not done() and th.is_alive() and _t.monotonic() - t0 < 5:
-            _t.sleep(0.0005)
+        while not pop_phase_over() and _t.monotonic() - t0 < 5:
+            _t.sleep(0.0002)
 
     def healthcheck(self, script: str, ctx: CallContext) -> str:
         return self.run(script, ctx, "healthcheck")
